@@ -22,6 +22,8 @@ both.
 """
 from fractions import Fraction
 
+import examined
+
 
 class Top(Exception):
     pass
@@ -262,8 +264,14 @@ class Interp:
                     v = v[1][p[1]]
                 elif v[0] == 'adt':
                     v = v[2][p[1]]
+                elif v[0] == 'enum':
+                    v = v[2][p[1]]
                 else:
                     raise Top('field of %s' % v[0])
+                continue
+            if isinstance(p, list) and p[0] == 'd' and v[0] == 'enum':
+                if p[1] != v[1]:
+                    raise Top('downcast to a variant the value is not in')
                 continue
             raise Top('projection %s' % (p,))
         return v
@@ -458,6 +466,18 @@ class Interp:
             raise Top('float constant arithmetic')
         if b[0] == 'fconst':
             j = log2_exact(b[1])
+            if base in ('Sub', 'Add') and a[0] == 'ffrom':
+                # an exactly converted integer minus an integer constant, the difference again exactly representable:
+                # the IEEE operation is exact.  RN_F(form)*2^j -/+ c  =  (form -/+ c/2^j) * 2^j
+                cj = b[1] / (Fraction(2) ** a[3])
+                mant = 24 if a[2] == 'f32' else 53
+                lo, hi = self.interval(a[1])
+                if cj.denominator == 1 and max(abs(lo), abs(hi)) <= (1 << mant):
+                    nf = a[1].add(-int(cj) if base == 'Sub' else int(cj))
+                    lo2, hi2 = self.interval(nf)
+                    if max(abs(lo2), abs(hi2)) <= (1 << mant):
+                        return ('ffrom', nf, a[2], a[3])
+                raise Top('float %s of a constant that is not exact on this range' % base)
             if j is None:
                 raise Top('float %s by %s, which is not a power of two' % (base, b[1]))
             if base == 'Div':
@@ -489,6 +509,12 @@ class Interp:
         if kind == 'IntToFloat':
             if v[0] == 'int':
                 return ('ffrom', v[1], ty, 0)
+            if v[0] == 'const':
+                # an integer constant that the float type represents exactly (a power of two, or below 2^mantissa)
+                c = v[1]
+                mant = 24 if ty == 'f32' else 53
+                if abs(c) <= (1 << mant) or (c > 0 and c & (c - 1) == 0 and c.bit_length() < 120):
+                    return ('fconst', Fraction(c), ty)
             raise Top('IntToFloat of ' + v[0])
         if kind == 'FloatToInt':
             if v[0] == 'fin':
@@ -533,6 +559,7 @@ class Interp:
             if depth >= self.MAX_DEPTH:
                 raise Top('inlining depth exceeded at %s' % callee['path'])
             self.stats['inlined'] += 1
+            examined.note(target)
             return self.run_body(target, args, depth + 1)
         path = (res.get('path') or callee['path'])
         name = callee['name']
@@ -547,6 +574,18 @@ class Interp:
                 nf = a[1].add(b[1] if op == 'Add' else -b[1])
                 return ('int', self.wrap_to(nf, ty), ty)
             return self.binop(op, a, b, ty)
+        if name == 'try_from' and callee.get('trait') == 'core::convert::TryFrom' and len(args) == 1:
+            # uN::try_from(s) / iN::try_from(s): Ok(s as T) exactly when s is in T's range, else Err(_)
+            dst = callee['args'][0]
+            if self.facts.ty(dst).get('k') == 'int':
+                return self.in_range_enum(args[0], self.trange(dst), lambda v: ('enum', 0, [self.cast('IntToInt', v, dst)]), ('enum', 1, [('unit',)]))
+        if path.startswith('core::num::<impl ') and name in ('checked_sub', 'checked_add') and len(args) == 2 and args[1][0] == 'const':
+            # Some(s -/+ c) exactly when the result is in the type's range, else None
+            ty = path[len('core::num::<impl '):].split('>')[0]
+            c = args[1][1] if name == 'checked_add' else -args[1][1]
+            rng = self.trange(ty)
+            shifted = (rng[0] - c, rng[1] - c)
+            return self.in_range_enum(args[0], shifted, lambda v: ('enum', 1, [self.binop('Add', v, ('const', c, ty), ty)]), ('enum', 0, []))
         if name in ('from', 'into') and callee.get('trait') in ('core::convert::From', 'core::convert::Into'):
             targs = callee['args']
             dst, src = (targs[0], targs[1]) if name == 'from' else (targs[1], targs[0])
@@ -558,6 +597,22 @@ class Interp:
             if ts.get('k') == 'float' and td.get('k') == 'float':
                 return self.cast('FloatToFloat', args[0], dst)
         raise Top('call to %s is outside the domain' % path)
+
+    def in_range_enum(self, v, rng, inside, outside):
+        """`inside(v)` if the integer value v lies in rng on the whole cell, `outside` if it lies outside on the whole cell;
+        a cell on which it does both is split at the boundary (Forms are monotone)"""
+        if v[0] == 'const':
+            return inside(v) if rng[0] <= v[1] <= rng[1] else outside
+        if v[0] != 'int':
+            raise Top('range test of %s' % v[0])
+        a, b = self.interval(v[1])
+        if rng[0] <= a and b <= rng[1]:
+            return inside(v)
+        if b < rng[0] or a > rng[1]:
+            return outside
+        if a < rng[0]:
+            raise Split(first_ge(v[1], self.lo, self.hi, rng[0]))
+        raise Split(first_ge(v[1], self.lo, self.hi, rng[1] + 1))
 
     def run_body(self, body, args, depth=0):
         env = {}
@@ -667,6 +722,11 @@ class Interp:
             raise Top('aggregate %s' % kind[0])
         if k == 'ref':
             return ('ref', rv[2], env)
+        if k == 'discr':
+            v = self.read_place(env, rv[1])
+            if v[0] == 'enum':
+                return ('const', v[1], 'isize')
+            raise Top('discriminant of %s' % v[0])
         raise Top('rvalue %s' % k)
 
 
